@@ -3,7 +3,8 @@
    edits, histories).  `repaired c` = the base.py default-argument repair and the SCCReader reset are in place. *)
 From Coq Require Import List ZArith Bool.
 From PV Require Import lib.Sx lib.Result lib.Str model.Store model.Iso
-     proofs.StoreFacts proofs.IsoFacts proofs.RegionFacts proofs.SccReadFacts proofs.IsoExamples.
+     spec.SpecIso proofs.StoreFacts proofs.IsoFacts proofs.RegionFacts proofs.SccReadFacts proofs.OracleFacts
+     proofs.IsoExamples.
 Import ListNotations.
 
 (* what a reader allocates for its result is a fresh region, closed under references, and nothing that existed is
@@ -69,33 +70,47 @@ Theorem C10_creation_and_writes_preserve_sets : forall c ops o k sk,
 Proof. exact creation_and_writes_preserve_sets. Qed.
 Print Assumptions C10_creation_and_writes_preserve_sets.
 
-(* a reused reader object reads exactly like a fresh one *)
-Theorem C10_read_reader_independent : forall c rk ri1 ri2 t st,
+(* THE MODEL MEETS THE ORACLE: the extracted property oracle evaluated on the model's own observations of ANY history
+   reports nothing: no read / build changes an older set (clauses 3, 6), every read equals the same read by a fresh reader
+   in the initial world (clause 4), no edit changes another set (clause 5) *)
+Theorem C10_model_meets_oracle : forall c ops,
+  repaired c -> check_hist tree tree_eqb TCut false true 0 [] [] (model_obs c world0 ops) = [].
+Proof. exact model_meets_ok_c10. Qed.
+Print Assumptions C10_model_meets_oracle.
+
+(* every operation keeps the world well formed *)
+Theorem C10_history_wf_world : forall c ops w, repaired c -> wf_world w -> wf_world (run_world c w ops).
+Proof. exact history_wf_world. Qed.
+Print Assumptions C10_history_wf_world.
+
+(* ---- MODEL-ONLY lemmas (definitional; NOT statements about pycaption's parsers) --------------------------------------
+   The model has no document, no parser, no read options and no hash seed: `read` takes the RESULT TREE t of the read
+   (supplied by the harness from a pristine read of the real reader) and decides only what is ALLOCATED for it.  The four
+   lemmas below say that the model allocates exactly t whatever the store and whatever the reader state it is given -
+   they are what clause 4 of C10_model_meets_oracle rests on, not evidence that real reading is deterministic; that is
+   decided by execution (pristine-read comparison, hash seeds). *)
+Theorem C10_model_read_ignores_reader_state : forall c rk ri1 ri2 t st,
   fix3 c = true -> read c rk ri1 t st = read c rk ri2 t st.
 Proof. exact read_reader_independent. Qed.
-Print Assumptions C10_read_reader_independent.
+Print Assumptions C10_model_read_ignores_reader_state.
 
-(* what is returned is a function of (reader kind, document): not of the store, i.e. not of anything read, written
-   or edited before, and not of the reader object - all six reader models, every snapshot depth >= 4 (the result of
-   a read is at least 4 objects deep: set / dict / CaptionList / Caption; the model's own snapshots use depth 64) *)
-Theorem C10_read_result_function_of_document : forall c rk ri t st st' ri' s n,
+Theorem C10_model_read_snapshot_is_given_tree : forall c rk ri t st st' ri' s n,
   repaired c -> read c rk ri t st = (st', ri', s) ->
   snap (S (S (S (S n)))) st' s = expected n rk t.
 Proof. exact read_result_function_of_document. Qed.
-Print Assumptions C10_read_result_function_of_document.
+Print Assumptions C10_model_read_snapshot_is_given_tree.
 
-Theorem C10_read_same_document_same_result : forall c rk ri1 ri2 t st1 st2 st1' st2' r1 r2 s1 s2 n,
+Theorem C10_model_read_same_tree_same_snapshot : forall c rk ri1 ri2 t st1 st2 st1' st2' r1 r2 s1 s2 n,
   repaired c -> read c rk ri1 t st1 = (st1', r1, s1) -> read c rk ri2 t st2 = (st2', r2, s2) ->
   snap (S (S (S (S n)))) st1' s1 = snap (S (S (S (S n)))) st2' s2.
 Proof. exact read_same_document_same_result. Qed.
-Print Assumptions C10_read_same_document_same_result.
+Print Assumptions C10_model_read_same_tree_same_snapshot.
 
-(* for the five tree-building reader models the result is, at EVERY depth, the document tree itself *)
-Theorem C10_read_result_is_document_tree : forall c rk ri t st st' ri' s n,
+Theorem C10_model_build_snapshot_is_given_tree : forall c rk ri t st st' ri' s n,
   fix2 c = true -> (rk =? R_SCC)%Z = false -> read c rk ri t st = (st', ri', s) ->
   snap n st' s = clean_trunc n (mark_defaults rk t).
 Proof. exact read_result_function_of_document_partial. Qed.
-Print Assumptions C10_read_result_is_document_tree.
+Print Assumptions C10_model_build_snapshot_is_given_tree.
 
 (* before the repairs the statements are false of the faithful model; the witnesses are the replayed histories *)
 Theorem C10_shared_default_refuted :
@@ -127,3 +142,20 @@ Proof. exact isolation_example. Qed.
 
 Example C10_world0_isolated : isolated world0.
 Proof. exact isolated_world0. Qed.
+
+(* an instance of the edit-footprint / isolation theorems on a concrete world (DFXP-read set edited, SCC-read set kept),
+   and the oracle on model observations is not vacuous: before the default-dict repair it reports clauses 5 and 4 *)
+Example C10_example_edit_footprint :
+  let st := w_st two_reads in
+  let s0 := nth 0 (w_sets two_reads) VNone in
+  let s1 := nth 1 (w_sets two_reads) VNone in
+  let st' := do_edit fixed st s0 (EAppendNode 0 0 (t_text "more")) in
+  snap FUEL st' s1 = snap FUEL st s1 /\ snap FUEL st' s0 <> snap FUEL st s0 /\ shares FUEL st' s0 s1 = false.
+Proof. exact edit_footprint_instance. Qed.
+
+Example C10_example_oracle_reports_shared_default :
+  check_hist tree tree_eqb TCut false true 0 [] []
+    (model_obs (mkCfg false true true) world0
+       [ORead 0 R_SRT doc_a; ORead 1 R_SRT doc_b; OEdit 0 (EAddStyle (TStr (lit "s:x")) red); ORead 2 R_SRT doc_b])
+  = [(2, 5); (3, 4)]%Z.
+Proof. exact oracle_reports_shared_default. Qed.
